@@ -13,7 +13,7 @@ from liesel.goose.epoch import EpochConfig, EpochType
 from liesel.goose.kernel_sequence import KernelSequence
 from liesel.goose.pytree import stack_leaves
 
-from .probes import ProbeKernel, read_logs
+from .probes import ProbeKernel, ProbeQG, read_logs
 
 SHAPES = [(), (2,), (2, 2), (3,)]
 
@@ -29,7 +29,7 @@ def cfg_of(c):
 
 
 def build_engine(K, needs_hist, chains, seed, J, init_cfgs, included=(), excluded=(),
-                 store_kernel_states=False, error_tables=None, cap=400, via_builder=False):
+                 store_kernel_states=False, error_tables=None, cap=400, via_builder=False, nq=0):
     keys = [f"p{k}" for k in range(1, K + 1)]
     model = gs.DictInterface(lambda s: jnp.asarray(0.0))
     kernels = []
@@ -37,6 +37,8 @@ def build_engine(K, needs_hist, chains, seed, J, init_cfgs, included=(), exclude
         ker = ProbeKernel([keys[k - 1]], kidx=k, cap=cap, needs_history=(k in needs_hist),
                           all_keys=keys, error_table=None if error_tables is None else error_tables[k - 1])
         kernels.append(ker)
+
+    qgs = [ProbeQG(f"qg{g}", keys) for g in range(1, nq + 1)]
 
     def state_for(c):
         st = {keys[k - 1]: jnp.zeros(SHAPES[(k - 1) % len(SHAPES)], jnp.float32) + float(k)
@@ -52,6 +54,8 @@ def build_engine(K, needs_hist, chains, seed, J, init_cfgs, included=(), exclude
         b.set_initial_values(state_for(0))
         for ker in kernels:
             b.add_kernel(ker)
+        for qg in qgs:
+            b.add_quantity_generator(qg)
         b.set_epochs([cfg_of(c) for c in init_cfgs])
         b.positions_included = list(included)
         b.positions_excluded = list(excluded)
@@ -62,6 +66,8 @@ def build_engine(K, needs_hist, chains, seed, J, init_cfgs, included=(), exclude
     for i, ker in enumerate(kernels):
         ker.set_model(model)
         ker.identifier = f"kernel_{i:02d}"
+    for qg in qgs:
+        qg.set_model(model)
     pos_keys = [k for k in keys + list(included) if k not in excluded]
     eng = Engine(
         seeds=jax.random.split(jax.random.PRNGKey(seed), chains),
@@ -72,6 +78,7 @@ def build_engine(K, needs_hist, chains, seed, J, init_cfgs, included=(), exclude
         model=model,
         position_keys=pos_keys,
         store_kernel_states=store_kernel_states,
+        quantity_generators=qgs,
         show_progress=False,
     )
     return eng, kernels, keys
@@ -120,10 +127,10 @@ def merge(new_by_kernel, K):
 
 
 def run(ops, K=2, needs_hist=(2,), chains=2, seed=0, J=1, init_cfgs=(), included=(), excluded=(),
-        store_kernel_states=False, via_builder=False, meta=None):
+        store_kernel_states=False, via_builder=False, meta=None, nq=0):
     """ops: list of ("append", cfg) | ("next",) | ("all",).  Returns one trace per chain."""
     eng, kernels, keys = build_engine(K, set(needs_hist), chains, seed, J, list(init_cfgs), included,
-                                      excluded, store_kernel_states, via_builder=via_builder)
+                                      excluded, store_kernel_states, via_builder=via_builder, nq=nq)
     if via_builder:
         J = int(eng._jitted_sample_duration)
     evs = {c: [] for c in range(chains)}
@@ -187,19 +194,21 @@ def run(ops, K=2, needs_hist=(2,), chains=2, seed=0, J=1, init_cfgs=(), included
         results_ev = {c: {"ev": "crashed", "what": crashed} for c in range(chains)}
     else:
         res = eng.get_results()
-        results_ev = results_event(res, eng, keys, K, chains, included, excluded, store_kernel_states)
+        results_ev = results_event(res, eng, keys, K, chains, included, excluded, store_kernel_states, nq)
     traces = []
     allkeys = [e["key"] for c in range(chains) for e in evs[c] if "key" in e]
+    if not crashed:
+        allkeys += [k for c in range(chains) for k in results_ev[c].get("qkeys", [])]
     for c in range(chains):
         ev = evs[c] + [dict(results_ev[c], allkeys=allkeys if c == 0 else [])]
         hdr = {"K": K, "J": J, "needs": sorted(needs_hist), "chain": c, "init": list(init_cfgs),
-               "kernel_keys": keys, "included": list(included), "excluded": list(excluded),
+               "kernel_keys": keys, "included": list(included), "excluded": list(excluded), "nq": nq,
                "via_builder": via_builder, "seed": seed,
                "postkey": [k for k in keys if k not in excluded][0]}
         hdr["scenario"] = {"ops": [list(o) for o in ops], "K": K, "needs_hist": list(needs_hist), "chains": chains,
                            "seed": seed, "J": J, "init_cfgs": list(init_cfgs), "included": list(included),
                            "excluded": list(excluded), "store_kernel_states": store_kernel_states,
-                           "via_builder": via_builder}
+                           "via_builder": via_builder, "nq": nq}
         hdr.update(meta or {})
         traces.append({"hdr": hdr, "ev": ev})
     return traces
@@ -213,7 +222,7 @@ def _uniform_tag(arr):
     return decode(a[0])
 
 
-def results_event(res, eng, keys, K, chains, included, excluded, store_kernel_states):
+def results_event(res, eng, keys, K, chains, included, excluded, store_kernel_states, nq=0):
     pos = res.positions
     epochs = pos.get_epochs()
     per_chain = {c: {"ev": "results", "epochs": [], "nepochs": len(epochs)} for c in range(chains)}
@@ -245,6 +254,33 @@ def results_event(res, eng, keys, K, chains, included, excluded, store_kernel_st
                 if kk.is_some():
                     rec["nks"] = int(np.asarray(kk.unwrap()[0].cur).shape[1])
             per_chain[c]["epochs"].append(rec)
+    # generated quantities: per epoch, per generator, what it saw
+    gq = res.generated_quantities
+    for c in range(chains):
+        per_chain[c]["quants"] = []
+        per_chain[c]["qkeys"] = []
+    if nq and gq.is_some():
+        mgr = gq.unwrap()
+        for e in range(len(epochs)):
+            st = mgr.get_specific_chain(e).get()
+            for c in range(chains):
+                recs = []
+                if st.is_some():
+                    d = st.unwrap()
+                    n = int(np.asarray(d["qg1"]["tie"]).shape[1])
+                    for t in range(n):
+                        per_gen = []
+                        for g in range(1, nq + 1):
+                            q = d[f"qg{g}"]
+                            per_gen.append({"seen": [decode(v)[:2] for v in np.asarray(q["seen"])[c, t]],
+                                            "tie": int(np.asarray(q["tie"])[c, t]), "time": int(np.asarray(q["time"])[c, t])})
+                            kk = np.asarray(q["key"])[c, t]
+                            per_chain[c]["qkeys"].append(f"{int(kk[0])}:{int(kk[1])}")
+                        recs.append(per_gen)
+                per_chain[c]["quants"].append(recs)
+    else:
+        for c in range(chains):
+            per_chain[c]["quants"] = [[] for _ in range(len(epochs))]
     # posterior accessor
     try:
         post = res.get_posterior_samples()
